@@ -1,4 +1,5 @@
 import YProofs.Lemmas.SchedSweeps
+import YProofs.Lemmas.SchedGauge
 /-!
 # C09 — DMRG is variational and self-consistent (schedule / environment-freshness part)
 
@@ -16,19 +17,6 @@ monotonicity, convergence to an eigenstate, the effect of the penalty terms (the
 -/
 namespace YModel.Sched
 
-/-- the whole event trace of `_dmrg_`: canonisation (if `psi.is_canonical(to='first')` is false), `setup_`, the initial
-`measure`, then for every sweep its method's sweep and the `measure` that produces the reported energy -/
-def dmrgRun (N : Nat) (canon : Bool) (methods : List Method) : List Ev :=
-  (if canon then [] else canonizeFirst N) ++ dmrgTrace N methods
-
-theorem dmrgRun_ok (N : Nat) (hN : 1 ≤ N) (pre canon : Bool) (methods : List Method) :
-    Tr N pre (J N) (dmrgRun N canon methods) (B N pre) := by
-  unfold dmrgRun
-  cases canon with
-  | true => exact (dmrgTrace_ok N pre hN methods).weaken (fun st h => J_S h) (fun st h => h)
-  | false =>
-    exact Tr.append (canonize_ok N pre) ((dmrgTrace_ok N pre hN methods).weaken (fun st h => J_S h) (fun st h => h))
-
 /-- **`dmrg_reads_fresh`** (clause "self-consistent": the environments stay in sync with the updated sites).
 For every chain length `N ≥ 1`, every sequence of methods over the sweeps (switches via `yastn.Method` included), with and
 without `precompute`, canonical or non-canonical initial state: no event of the run reads a missing or stale environment
@@ -36,10 +24,6 @@ without `precompute`, canonical or non-canonical initial state: no event of the 
 theorem dmrg_reads_fresh (N : Nat) (hN : 1 ≤ N) (pre canon : Bool) (methods : List Method) :
     (exec N pre (init N canon) (dmrgRun N canon methods)).2 = true :=
   (dmrgRun_ok N hN pre canon methods _ (J_init N canon)).1
-
-theorem fresh_of_FreshK {N : Nat} {st : St} {k : Key} (h : FreshK N st.ver st.F k) : st.fresh N k = true := by
-  unfold FreshK at h
-  simp [St.fresh, h]
 
 /-- **`dmrg_exit_state`** (clause "the reported energy equals the expectation value in the returned state", schedule part):
 after the run there is no central block and both environments read by `measure()` at bond `(-1, 0)` are fresh for the
@@ -59,13 +43,48 @@ theorem dmrg_ends_with_measure (N : Nat) (canon : Bool) (ms : List Method) (m : 
     simp [dmrgRun, dmrgTrace, List.flatMap_append, List.append_assoc]
   rw [e, List.getLast?_concat]
 
-/- `dmrg_exit_state`, gauge part — proved only on instances (`example`s below), full statement:
-   theorem dmrg_exit_gauge (N ≥ 1) (pre canon) (ms) (m) :
-     let st := (exec N pre (init N canon) (dmrgRun N canon (ms ++ [m]))).1
-     (∀ n, 1 ≤ n → n < N → st.g n = .right) ∧ (m = .one → st.g 0 = .right)
-   (after a '2site' sweep site 0 holds U·S: right-canonical iff the kept Schmidt values have norm one — this is where the
-   known defect c09:unnormalised-2site-truncation lives).
-   `sector_preserved`, `energy_nonincreasing`, `energy_ge_lambda_min`: not proved (validated by the oracles). -/
+/-- **`dmrg_exit_state`**, gauge part ("returns a canonical MPS"): after a run whose last sweep uses method `m` there is no
+central block, every site `k ≥ 1` is right-canonical, and after a '1site' sweep so is site 0 (its trivial 1×1 central
+block has modulus one).  After a '2site' sweep site 0 holds `U·S` (gauge `none` in the model): it is right-canonical iff the
+kept Schmidt values have norm one — exactly where the known defect `c09:unnormalised-2site-truncation` lives. -/
+theorem dmrg_exit_gauge (N : Nat) (hN : 1 ≤ N) (pre canon : Bool) (ms : List Method) (m : Method) :
+    let st := (exec N pre (init N canon) (dmrgRun N canon (ms ++ [m]))).1
+    st.pC = none ∧ (∀ k, 1 ≤ k → k < N → st.g k = .right) ∧ (m = .one → st.g 0 = .right) := by
+  intro st
+  have e : dmrgRun N canon (ms ++ [m]) =
+      ((if canon then [] else canonizeFirst N) ++ (setupFirst N ++ ([.meas 0] ++
+        ms.flatMap (fun m => dmrgSweep m N ++ [.meas 0])))) ++ (dmrgSweep m N ++ [.meas 0]) := by
+    simp [dmrgRun, dmrgTrace, List.flatMap_append, List.append_assoc]
+  have hgp : (st.pC, st.g) = gexec N (none, (init N canon).g) (dmrgRun N canon (ms ++ [m])) := exec_gp N pre (init N canon) _
+  rw [e, gexec_append, gexec_append] at hgp
+  -- the prefix leaves no central block
+  have hpre : (gexec N (none, (init N canon).g) ((if canon then [] else canonizeFirst N) ++ (setupFirst N ++ ([.meas 0] ++
+      ms.flatMap (fun m => dmrgSweep m N ++ [.meas 0]))))).1 = none := by
+    rw [gexec_append, gexec_append, g_setup, gexec_append]
+    apply g_sweeps_pn N hN
+    have : ∀ s : GP, gexec N s [.meas 0] = s := fun s => rfl
+    rw [this]
+    cases canon with
+    | true => rfl
+    | false => exact g_canonize N _ rfl
+  have hm : ∀ s : GP, gexec N s [.meas 0] = s := fun s => rfl
+  rw [hm] at hgp
+  cases m with
+  | one =>
+    have : Gg N 0 (gexec N _ (dmrgSweep .one N)) := g_sweep_one N _ hpre
+    rw [← hgp] at this
+    exact ⟨this.1, fun k hk hkN => this.2 k (by omega) hkN, fun _ => this.2 0 (by omega) (by omega)⟩
+  | two =>
+    have : Gg N 1 (gexec N _ (dmrgSweep .two N)) := g_sweep_two N hN _ hpre
+    rw [← hgp] at this
+    exact ⟨this.1, fun k hk hkN => this.2 k hk hkN, fun h => by cases h⟩
+  | onetwo =>
+    have : Gg N 1 (gexec N _ (dmrgSweep .onetwo N)) := g_sweep_two N hN _ hpre
+    rw [← hgp] at this
+    exact ⟨this.1, fun k hk hkN => this.2 k hk hkN, fun h => by cases h⟩
+
+/- not proved (validated by the oracles on the real code): `sector_preserved`, `energy_nonincreasing`,
+   `energy_ge_lambda_min`, convergence to an eigenstate, the effect of the penalty environments. -/
 
 /-! ### non-vacuity: the checker does reject wrong schedules, and the hypotheses are satisfiable -/
 
